@@ -161,6 +161,35 @@ def check_image_size(rep, fns):
     rep.floor("obligations:S2", 6)
 
 
+def checked_integer_reads(rep, fns, tag, rule):
+    """S3c / R1c: the integer readers of both input devices call the checked array overload of read (shared by C13 and C11)"""
+    rep.rule(tag + " read_uint8 / read_uint16 / read_uint32 of both input devices call the checked array overload read(T(&)[N]) (one argument); the (pointer, count) overload "
+             "only returns the byte count -- called with its result discarded, a field cut off by the end of the input is returned as whatever the buffer held")
+    seen_c = set()
+    for f in fns:
+        m = re.match(r"boost::gil::detail::(file_stream_device|istream_device)::(read_uint8|read_uint16|read_uint32)$", f["name"])
+        if not m or f.get("body") is None or m.groups() in seen_c:
+            continue
+        seen_c.add(m.groups())
+        rep.count("obligations:" + tag)
+        key = tag + ":%s::%s" % m.groups()
+        calls = [(c, p) for c, p in R.calls_in(f["body"], lambda n: n.endswith("_device::read"))]
+        unchecked = []
+        for c, p in calls:
+            if len(c.get("args", [])) >= 2:
+                anc = [a for a, _, _ in p if a.get("k") not in ("Paren", "ImplicitCast", "ExprWithCleanups")]
+                if anc and anc[-1].get("k") in ("Compound",):
+                    unchecked.append(R.key(c)[:80])
+        if not calls:
+            rep.incon(rule, key, {"unrecognised": "no call of read"})
+        elif unchecked:
+            rep.violation(rule, key, W + "io/device.hpp:%s" % f["line"], {"unchecked": unchecked,
+                          "example": "a win32-header bmp cut to 30..53 bytes read through std::istream: read_image_info returns fields made of stale bytes instead of throwing; FILE* and file name devices throw"})
+        else:
+            rep.ok(rule, key, [R.key(c)[:60] for c, _ in calls])
+    rep.floor("obligations:" + tag, 6)
+
+
 def devices_ast(rep, fns):
     rep.rule("S3a both input devices: read(T(&)[N]) reports a short read as io_error (io_error_if(read(buf,N) < N))")
     seen = set()
@@ -191,32 +220,7 @@ def devices_ast(rep, fns):
             rep.violation("S3-short-read", key, W + "io/device.hpp:%s" % f["line"], {"raw_read_calls": len(raw), "result_checked": checked,
                                                                                      "problem": "the byte count returned by read(buf, N) is discarded: a truncated file yields uninitialised header fields instead of an error; the sibling device throws"})
     rep.floor("obligations:S3a", 2)
-    # ---- S3c the integer readers go through that checked wrapper
-    rep.rule("S3c read_uint8 / read_uint16 / read_uint32 of both input devices call the checked array overload read(T(&)[N]) (one argument); the (pointer, count) overload "
-             "only returns the byte count -- called with its result discarded, a field cut off by the end of the input is returned as whatever the buffer held")
-    seen_c = set()
-    for f in fns:
-        m = re.match(r"boost::gil::detail::(file_stream_device|istream_device)::(read_uint8|read_uint16|read_uint32)$", f["name"])
-        if not m or f.get("body") is None or m.groups() in seen_c:
-            continue
-        seen_c.add(m.groups())
-        rep.count("obligations:S3c")
-        key = "S3c:%s::%s" % m.groups()
-        calls = [(c, p) for c, p in R.calls_in(f["body"], lambda n: n.endswith("_device::read"))]
-        unchecked = []
-        for c, p in calls:
-            if len(c.get("args", [])) >= 2:
-                anc = [a for a, _, _ in p if a.get("k") not in ("Paren", "ImplicitCast", "ExprWithCleanups")]
-                if anc and anc[-1].get("k") in ("Compound",):
-                    unchecked.append(R.key(c)[:80])
-        if not calls:
-            rep.incon("S3c-checked-read", key, {"unrecognised": "no call of read"})
-        elif unchecked:
-            rep.violation("S3c-checked-read", key, W + "io/device.hpp:%s" % f["line"], {"unchecked": unchecked,
-                          "example": "a win32-header bmp cut to 30..53 bytes read through std::istream: read_image_info returns fields made of stale bytes instead of throwing; FILE* and file name devices throw"})
-        else:
-            rep.ok("S3c-checked-read", key, [R.key(c)[:60] for c, _ in calls])
-    rep.floor("obligations:S3c", 6)
+    checked_integer_reads(rep, fns, "S3c", "S3c-checked-read")
 
 
 DEV_DRIVER = '''#include "vf_common.hpp"
